@@ -145,6 +145,8 @@ def apply_tags(kind, obj, rng, sizeclass):
     if st == "vc":
         k = rng.choice(["title", "ARTIST", "x y", "Title", "album", "a}b"])
         t[k] = [text(rng, sizeclass) for _ in range(rng.choice([1, 1, 2, 3]))]
+        if rng.random() < 0.15:
+            t["genre"] = rng.choice([[""], [text(rng, "tiny"), ""]])      # empty values are valid
         if rng.random() < 0.3:
             t["comment"] = [text(rng, "tiny")]
     elif st == "id3":
@@ -183,6 +185,8 @@ def apply_tags(kind, obj, rng, sizeclass):
         r = rng.random()
         if r < 0.45:
             t[rng.choice(["\xa9nam", "\xa9ART", "\xa9alb", "\xa9cmt"])] = [text(rng, sizeclass) for _ in range(rng.choice([1, 1, 2]))]
+            if rng.random() < 0.25:
+                t["\xa9gen"] = rng.choice([[""], [text(rng, "tiny"), ""]])   # an empty string is a valid text value
         elif r < 0.6:
             t["covr"] = [MP4Cover(blob(rng, sizeclass), rng.choice([MP4Cover.FORMAT_PNG, MP4Cover.FORMAT_JPEG]))]
         elif r < 0.7:
